@@ -125,6 +125,31 @@ def check_cpd(desc, M, cpd, pa_set, fn, tag, order=None):
         M.eq(vals2d[a["c"]][col_of(desc, cpd.variables[1:], a)], want, f"{tag}: get_values layout")
 
 
+def check_labelled_export(desc, M, cpd, fn, tag):
+    """the labelled 2-D table that to_csv()/str() write: header row i names parent i's state in every column's configuration (row-major over the
+    CPD's own parent order), data row r is labelled with the child's r-th state and holds column j's entry."""
+    rows = cpd._make_table_str(tablefmt="grid", return_list=True)
+    pa = list(cpd.variables[1:])
+    card = desc["card"]
+    ncol = int(np.prod([card[p] for p in pa])) if pa else 1
+    if not M.check(len(rows) == len(pa) + card["c"] and all(len(r) == 1 + ncol for r in rows), f"{tag}: labelled export shape",
+                   detail=str([len(r) for r in rows])):
+        return
+    for a in C.assignments(desc, cpd.variables):
+        j = col_of(desc, pa, a)
+        for i, p_ in enumerate(pa):
+            M.check(rows[i][0] == str(p_) and rows[i][1 + j] == f"{p_}({C.sname(desc, p_, a[p_])})", f"{tag}: labelled export column header",
+                    detail=f"{rows[i][0]} {rows[i][1 + j]} for {a}")
+        row = rows[len(pa) + a["c"]]
+        M.check(row[0] == f"c({C.sname(desc, 'c', a['c'])})", f"{tag}: labelled export row label", detail=str(row[0]))
+        cell = row[1 + j]
+        if isinstance(cell, str):
+            if not M.symbolic:
+                M.eq(float(cell), fn(a), f"{tag}: labelled export value")
+        else:
+            M.eq(cell, fn(a), f"{tag}: labelled export value")
+
+
 def snap(cpd):
     return (list(cpd.variables), [int(x) for x in cpd.cardinality], list(cpd.values.ravel()), copy.deepcopy(cpd.state_names))
 
@@ -155,6 +180,7 @@ def run(desc, M):
         check_cpd(desc, M, cpd, pa, T, "init", order=pa)
         cp = cpd.copy()
         check_cpd(desc, M, cp, pa, T, "copy", order=pa)
+        check_labelled_export(desc, M, cpd, T, "init")
         M.check(not np.shares_memory(cp.values, cpd.values), "copy aliases values")
         M.check(cp.state_names is not cpd.state_names, "copy aliases state names")
         M.check(set(cpd.get_evidence()) == set(pa) and len(cpd.get_evidence()) == len(pa), "get_evidence")
@@ -212,6 +238,7 @@ def run(desc, M):
             M.eq(ret[a["c"]][col_of(desc, new, a)], T(a), "reorder: returned table layout")
         if desc["inplace"]:
             check_cpd(desc, M, cpd, pa, T, "reorder(inplace)", order=new)
+            check_labelled_export(desc, M, cpd, T, "reorder(inplace)")
         else:
             unchanged(M, cpd, s0, "reorder(inplace=False) leaves original")
             check_cpd(desc, M, cpd, pa, T, "reorder(out of place) original", order=pa)
